@@ -656,6 +656,11 @@ def preprocess_observation(
     # Check add batch dimension if necessary
     observation = maybe_add_batch_dim(observation, space_shape)
 
+    # Scalar (rank-0) Box observations need a feature dimension, otherwise a batch of
+    # B scalars reaches the network as a single observation with B features
+    if isinstance(observation_space, spaces.Box) and len(observation_space.shape) == 0:
+        observation = observation.unsqueeze(-1)
+
     return observation
 
 
